@@ -1393,6 +1393,10 @@ func (cs *ConsensusState) defaultSetProposal(proposal *types.Proposal) error {
 	// made us collect them before the proposal arrived): keep them, an empty set
 	// next to a complete ProposalBlock cannot be saved when the block is committed.
 	if cs.ProposalBlockParts == nil || !cs.ProposalBlockParts.HasHeader(proposal.BlockPartsHeader) {
+		// A block assembled from another part set (collected for a polka of this round)
+		// does not belong to this proposal: ProposalBlock is always the block of
+		// ProposalBlockParts, finalizeCommit relies on it.
+		cs.ProposalBlock = nil
 		cs.ProposalBlockParts = types.NewPartSetFromHeader(proposal.BlockPartsHeader)
 	}
 	return nil
